@@ -58,27 +58,45 @@ def confirm(seed):
         shutil.rmtree(SCRATCH, ignore_errors=True)
     return res
 
+SRC = "/tmp/seedcheck-src"
+
 def detect(seed, checks):
-    rc, out = run(f"git -C {REPO} status --short")
-    if out.strip():
-        return {"error": "/repo is not clean: " + out}
-    rc, out = run(f"git -C {REPO} apply {seed}/patch.diff")
+    """Run the snapshot harness (whose path dependency points at SRC, a scratch worktree of /repo
+    with the seed applied) - /repo itself is not touched by the bulk matrix."""
+    rc, out = run(f"git -C {SRC} checkout -- . && git -C {SRC} apply {seed}/patch.diff")
     if rc != 0:
-        return {"error": "patch does not apply to /repo: " + out}
+        return {"error": "patch does not apply to the scratch source: " + out}
     results = {}
     try:
         for c in checks:
             t = time.time()
-            rc, out = run(f"./check {c} --tier quick", cwd=VERIF, env={"VERIF_ROOT": "/tmp/seedcheck-verif"})
+            rc, out = run(f"./check {c} --tier quick", cwd=SNAP)
             sigs = re.findall(r"signature=(\S+)", out)
             results[c] = {"exit": rc, "signatures": sigs[:6], "wall_s": round(time.time() - t, 1)}
             if rc == 2:
                 results[c]["machinery"] = out[-400:]
     finally:
-        run(f"git -C {REPO} checkout -- .")
+        run(f"git -C {SRC} checkout -- .")
     return results
 
+SNAP = "/tmp/seedcheck-verif"
+
+def prepare():
+    os.makedirs(SNAP, exist_ok=True)
+    run(f"git -C {REPO} worktree remove --force {SRC}")
+    shutil.rmtree(SRC, ignore_errors=True)
+    run(f"git -C {REPO} worktree add -q --detach {SRC} HEAD")
+    run(f"rsync -a --delete {VERIF}/harness/ {SNAP}/harness/")
+    run(f"sed -i 's|path = \"/repo\"|path = \"{SRC}\"|' {SNAP}/harness/fpverif/Cargo.toml")
+    shutil.copy(f"{VERIF}/check", f"{SNAP}/check")
+    shutil.copy(f"{VERIF}/known_findings.json", f"{SNAP}/known_findings.json")
+    rc, out = run("./check C13 --tier quick", cwd=SNAP)
+    print("snapshot prepared:", out.strip().splitlines()[-1] if out.strip() else rc)
+
 def main():
+    if sys.argv[1] == "--prepare":
+        prepare()
+        return
     seed, sid = sys.argv[1], sys.argv[2]
     checks = [f"C{n:02d}" for n in range(1, 21)]
     if "--checks" in sys.argv:
@@ -90,11 +108,10 @@ def main():
     if ok:
         # evidence/replays of these runs must not overwrite /verif's own: use a scratch root that
         # shares the build (target) and the known-findings list
-        os.makedirs("/tmp/seedcheck-verif", exist_ok=True)
-        for name in ("target",):
-            if not os.path.exists(f"/tmp/seedcheck-verif/{name}"):
-                os.symlink(f"{VERIF}/{name}", f"/tmp/seedcheck-verif/{name}")
-        shutil.copy(f"{VERIF}/known_findings.json", "/tmp/seedcheck-verif/known_findings.json")
+        # a snapshot of the harness (taken by `seedtest.py --prepare`) so that edits under /verif do
+        # not disturb a running batch; it has its own target, evidence and replays directories
+        if not os.path.exists(f"{SNAP}/check"):
+            prepare()
         det = detect(seed, checks)
         out["detection"] = det
         out["caught_by"] = sorted(c for c, r in det.items() if isinstance(r, dict) and r.get("exit") == 1)
